@@ -270,6 +270,26 @@ RegLaws<arr, Order::none, false> const r_array{{
     .hashes = {},
     .equalities = {}}};
 
+// ---------------------------------------------------------------- array<double,2> with signed zeros
+// Equality is equality of the components (operator== of the element type): 0.0 and -0.0 are equal
+// components with different object representations. (No NaN: == is not reflexive on it, so the
+// element type itself is outside "== is an equivalence".)
+using darr = fcppt::array::object<double, 2>;
+RegLaws<darr, Order::none, false> const r_array_double{{
+    .name = "array<double,2>",
+    .build =
+        [](Entries<darr> &e) {
+          double const vals[] = {0.0, -0.0, 1.5, -1.5};
+          char const *const names[] = {"0.0", "-0.0", "1.5", "-1.5"};
+          for (int a = 0; a < 4; ++a)
+            for (int b = 0; b < 4; ++b) put(e, darr{vals[a], vals[b]}, 0, std::string("array{") + names[a] + "," + names[b] + "}");
+          put(e, fcppt::array::map(darr{0.0, 1.5}, [](double x) { return -x; }), 1, "map(array{0.0,1.5}, negate)");
+        },
+    .obs = [](darr const &t) { return Ints{static_cast<i64>(t.get_unsafe(0) * 2), static_cast<i64>(t.get_unsafe(1) * 2)}; },
+    .key = {},
+    .hashes = {},
+    .equalities = {}}};
+
 // ---------------------------------------------------------------- record
 FCPPT_RECORD_MAKE_LABEL(lab_a);
 FCPPT_RECORD_MAKE_LABEL(lab_b);
